@@ -14,10 +14,18 @@ use core::{
 
 use fpdec_core::mul_pow_ten;
 
-use crate::Decimal;
+use crate::{Decimal, DecimalError};
+
+#[inline(always)]
+fn coeff_or_panic(coeff: Option<i128>) -> i128 {
+    match coeff {
+        Some(coeff) => coeff,
+        None => panic!("{}", DecimalError::InternalOverflow),
+    }
+}
 
 macro_rules! impl_add_sub_decimal {
-    (impl $imp:ident, $method:ident) => {
+    (impl $imp:ident, $method:ident, $checked_method:ident) => {
         impl $imp<Self> for Decimal {
             type Output = Self;
 
@@ -25,27 +33,29 @@ macro_rules! impl_add_sub_decimal {
             fn $method(self, rhs: Decimal) -> Self::Output {
                 match self.n_frac_digits.cmp(&rhs.n_frac_digits) {
                     Ordering::Equal => Self::Output {
-                        coeff: $imp::$method(self.coeff, rhs.coeff),
+                        coeff: coeff_or_panic(i128::$checked_method(
+                            self.coeff, rhs.coeff,
+                        )),
                         n_frac_digits: self.n_frac_digits,
                     },
                     Ordering::Greater => Self::Output {
-                        coeff: $imp::$method(
+                        coeff: coeff_or_panic(i128::$checked_method(
                             self.coeff,
                             mul_pow_ten(
                                 rhs.coeff,
                                 self.n_frac_digits - rhs.n_frac_digits,
                             ),
-                        ),
+                        )),
                         n_frac_digits: self.n_frac_digits,
                     },
                     Ordering::Less => Self::Output {
-                        coeff: $imp::$method(
+                        coeff: coeff_or_panic(i128::$checked_method(
                             mul_pow_ten(
                                 self.coeff,
                                 rhs.n_frac_digits - self.n_frac_digits,
                             ),
                             rhs.coeff,
-                        ),
+                        )),
                         n_frac_digits: rhs.n_frac_digits,
                     },
                 }
@@ -56,9 +66,9 @@ macro_rules! impl_add_sub_decimal {
     };
 }
 
-impl_add_sub_decimal!(impl Add, add);
+impl_add_sub_decimal!(impl Add, add, checked_add);
 
-impl_add_sub_decimal!(impl Sub, sub);
+impl_add_sub_decimal!(impl Sub, sub, checked_sub);
 
 #[cfg(test)]
 mod add_sub_decimal_tests {
@@ -184,12 +194,13 @@ mod add_sub_decimal_tests {
 }
 
 macro_rules! impl_add_sub_decimal_and_int {
-    (impl $imp:ident, $method:ident) => {
+    (impl $imp:ident, $method:ident, $checked_method:ident) => {
         impl_add_sub_decimal_and_int!(
-            impl $imp, $method, u8, i8, u16, i16, u32, i32, u64, i64, i128
+            impl $imp, $method, $checked_method;
+            u8, i8, u16, i16, u32, i32, u64, i64, i128
         );
     };
-    (impl $imp:ident, $method:ident, $($t:ty),*) => {
+    (impl $imp:ident, $method:ident, $checked_method:ident; $($t:ty),*) => {
         $(
         impl $imp<$t> for Decimal
         where
@@ -200,15 +211,15 @@ macro_rules! impl_add_sub_decimal_and_int {
             fn $method(self, rhs: $t) -> Self::Output {
                 if self.n_frac_digits == 0 {
                     Self::Output{
-                        coeff: $imp::$method(self.coeff, i128::from(rhs)),
+                        coeff: coeff_or_panic(i128::$checked_method(
+                            self.coeff, i128::from(rhs))),
                         n_frac_digits: 0,
                     }
                 } else {
                     Self::Output{
-                        coeff: $imp::$method(self.coeff,
-                                             mul_pow_ten(
-                                                i128::from(rhs),
-                                                self.n_frac_digits)),
+                        coeff: coeff_or_panic(i128::$checked_method(
+                            self.coeff,
+                            mul_pow_ten(i128::from(rhs), self.n_frac_digits))),
                         n_frac_digits: self.n_frac_digits,
                     }
                 }
@@ -224,15 +235,15 @@ macro_rules! impl_add_sub_decimal_and_int {
             fn $method(self, rhs: Decimal) -> Self::Output {
                 if rhs.n_frac_digits == 0 {
                     Self::Output{
-                        coeff: $imp::$method(i128::from(self), rhs.coeff),
+                        coeff: coeff_or_panic(i128::$checked_method(
+                            i128::from(self), rhs.coeff)),
                         n_frac_digits: 0,
                     }
                 } else {
                     Self::Output{
-                        coeff: $imp::$method(mul_pow_ten(
-                                                i128::from(self),
-                                                rhs.n_frac_digits),
-                                             rhs.coeff),
+                        coeff: coeff_or_panic(i128::$checked_method(
+                            mul_pow_ten(i128::from(self), rhs.n_frac_digits),
+                            rhs.coeff)),
                         n_frac_digits: rhs.n_frac_digits,
                     }
                 }
@@ -242,10 +253,10 @@ macro_rules! impl_add_sub_decimal_and_int {
     }
 }
 
-impl_add_sub_decimal_and_int!(impl Add, add);
+impl_add_sub_decimal_and_int!(impl Add, add, checked_add);
 forward_ref_binop_decimal_int!(impl Add, add);
 
-impl_add_sub_decimal_and_int!(impl Sub, sub);
+impl_add_sub_decimal_and_int!(impl Sub, sub, checked_sub);
 forward_ref_binop_decimal_int!(impl Sub, sub);
 
 #[cfg(test)]
